@@ -253,7 +253,19 @@ theorem timer_handle_safe {ps : String} {w : World} (h : Reachable ps w) :
     (Flags.timer_expiry_clears_handle || Flags.abandon_checks_active) = true ∧
     (Flags.timer_expiry_clears_handle || Flags.stop_using_checks_active) = true ∧
     (Flags.timer_expiry_clears_handle || Flags.ping_timer_checks_active) = true :=
-  ⟨(reachable_inv h).2.2, abandonSafe, stopUsingSafe, pingSafe⟩
+  ⟨(reachable_inv h).2.2.1, abandonSafe, stopUsingSafe, pingSafe⟩
+
+/-- the wormhole's Cooperator — which drives every pull producer an application protocol registered
+    on a subchannel (`PullToPush`) — is running in every reachable world: `Dilator.stop()` of the
+    working tree does not stop it (`coopSafe`, decided on the generated flag).  Hence pausing the
+    producers in `Outbound.stop_using_connection` (and resuming them in `use_connection`) never
+    raises SchedulerStopped, `connector_connection_lost` always reaches the machine, and
+    `stop_from_every_state` covers close() in the middle of a transfer. -/
+theorem cooperator_never_stopped {ps : String} {w : World} (h : Reachable ps w) :
+    w.coopStopped = false ∧ Flags.dilator_stop_stops_cooperator = false ∧
+    (pauseAll w).2 = none ∧ (resumeAll w).2 = none :=
+  have hc := (reachable_inv h).2.2.coopRunning
+  ⟨hc, coopSafe, pauseAll_ok w hc, resumeAll_ok w hc⟩
 
 /-! ## 5. late callbacks are harmless -/
 
@@ -514,5 +526,31 @@ example : (run fresh silentPeerRun).ms = .CONNECTED ∧ (run fresh silentPeerRun
 
 example : (step (run fresh silentPeerRun) (.term .stoppedRC)).2 = .done ∧
     (settle (step (run fresh silentPeerRun) (.term .stoppedRC)).1).closed = 1 := by decide
+
+/-- close() in the middle of a transfer: CONNECTED, a subchannel is open and its protocol has a pull
+    producer registered (and a second one a push producer) that is still producing -/
+def midTransferRun (side : String) : List Ev :=
+  [.dilate, .key, .versions (canDilate ["ged"]), .connect, .connect, .msg (.please side), .inbound 0, .kcm 0, .turn, .turn,
+   .producer true 0, .producer false 1, .turn, .term .close, .term .nameplate_done, .term .mailbox_done]
+
+theorem midTransferRun_ok : okRun "1000000000000000" fresh (midTransferRun "1000000000000000") ∧
+    okRun "f000000000000000" fresh (midTransferRun "f000000000000000") := by
+  constructor <;>
+  · simp [midTransferRun, okRun, okEv, okMsg, fresh, World.init, step, dilate, replayKey, replayVersions, replayVersions?,
+      drainMsgs, andThen, ofRes, gotKey]
+    decide
+
+example : Reachable "f000000000000000" (run fresh (midTransferRun "f000000000000000")) :=
+  ⟨false, false, "8000000000000000", _, by decide, midTransferRun_ok.2, rfl⟩
+
+example : (run fresh (midTransferRun "f000000000000000")).ms = .CONNECTED ∧
+    (run fresh (midTransferRun "f000000000000000")).prods =
+      [{ waiter := 0, pull := true, paused := false }, { waiter := 1, pull := false, paused := false }] ∧
+    (run fresh (midTransferRun "f000000000000000")).ts = .S_stoppingRC := by decide
+
+example : (settle (step (run fresh (midTransferRun "f000000000000000")) (.term .stoppedRC)).1).closed = 1 ∧
+    (settle (step (run fresh (midTransferRun "1000000000000000")) (.term .stoppedRC)).1).closed = 1 ∧
+    (settle (step (run fresh (midTransferRun "f000000000000000")) (.term .stoppedRC)).1).prods.all (·.paused) = true := by
+  decide
 
 end WV.Props.C17
